@@ -44,6 +44,30 @@ EmitVector == vSeq # <<>> => PrintT(ToJson([i |-> Text, e |-> ParseText(Text), t
 SweepChars == {c \in 33..126 : c # cSQ}
 SweepForms(c) == << <<cPCT, c>>, <<cBSL, c>>, <<97, cPCT, c, 98>>, <<97, cBSL, c, 98>>, <<cPCT, 65, c>>, <<cPCT, 67, c>>, <<cPCT, 84, c>>,
                     <<cPCT, 123, c, 125>>, <<cBSL, 48, 49, c>>, <<cBSL, 49, c, 49>>, <<cBSL, c, 48, 49>>, <<c>>, <<cBSL, cBSL, c>>, <<cPCT, cPCT, c>> >>
+\* every documented brace directive with one character deleted, doubled, or two neighbours swapped, and with the
+\* usual separators replaced (- _ nothing): near-misses of a long token are not directives
+BraceDirs == << Cp("%{fid}"), Cp("%{projid}"), Cp("%{mirror-count}"), Cp("%{stripe-count}"), Cp("%{stripe-size}"), Cp("%{xattr:foo}") >>
+DelAt(s, k) == SubSeq(s, 1, k - 1) \o SubSeq(s, k + 1, Len(s))
+DupAt(s, k) == SubSeq(s, 1, k) \o SubSeq(s, k, Len(s))
+SwapAt(s, k) == SubSeq(s, 1, k - 1) \o <<s[k + 1], s[k]>> \o SubSeq(s, k + 2, Len(s))
+EmitBraceEdits ==
+  vSeq = <<>> =>
+    \A d \in 1..Len(BraceDirs) : \A k \in 2..Len(BraceDirs[d]) :
+      LET b == BraceDirs[d]
+          cands == {DelAt(b, k), DupAt(b, k)} \cup (IF k < Len(b) THEN {SwapAt(b, k)} ELSE {})
+                   \cup (IF b[k] = cMINUS THEN {SubSeq(b, 1, k - 1) \o <<95>> \o SubSeq(b, k + 1, Len(b)), SubSeq(b, 1, k - 1) \o <<cSP>> \o SubSeq(b, k + 1, Len(b))} ELSE {})
+      IN \A x \in cands :
+           LET txt == KwPrintf \o Cp("a") \o x \o Cp("\\n") \o <<cSQ>> IN
+           PrintT(ToJson([i |-> txt, e |-> ParseText(txt), tag |-> "C14"]))
+\* a backslash in front of a blank or control character inside a quoted format (a pre-processing of "line
+\* continuations" or the like would eat both)
+CtlAfterBsl == {9, 10, 11, 12, 13, 32, 1, 27, 127, 160}
+EmitCtl ==
+  vSeq = <<>> =>
+    \A c \in CtlAfterBsl :
+      \A txt \in {Cp("-printf \"%p,\\") \o <<c>> \o Cp("%s\\n\""), Cp("-printf 'a\\") \o <<c>> \o Cp("b'"), Cp("-printf '\\") \o <<c>> \o <<cSQ>>,
+                   Cp("-fprintf f \"x") \o <<c>> \o Cp("\\") \o <<c>> \o Cp("y\" -print")} :
+        PrintT(ToJson([i |-> txt, e |-> ParseText(txt), tag |-> "C14"]))
 \* a format given WITHOUT quotes that holds, as ordinary literal text, a character some classification calls
 \* white space (but which is not a blank of the expression language), and the same format between quotes
 WideChars == {11, 12, 28, 31, 133, 160, 173, 233, 5760, 8192, 8199, 8202, 8203, 8232, 8233, 8239, 8287, 12288, 65279, 128512}
